@@ -162,7 +162,21 @@ def check(prop, tier, seed, t0):
     errors = []
     for name, sd, base, res in results:
         if "error" in base:
-            errors.append((name, base["error"]))
+            # the configurations are valid (they run on the unchanged tree).  The run is repeated in two more fresh processes:
+            # if it succeeds there, the outcome depends on the process; if the code under test raises every time, it is
+            # reported as such (a verdict, not a failure of the machinery); anything else is a machinery problem
+            cfg_ = dict(cfgs)[name]
+            again = [run_worker(cfg_, sd, "plain", 0), run_worker(cfg_, sd, "plain", 4242)]
+            good = [r for r in again if "error" not in r]
+            in_pams = "/pams/" in base["error"] and "harness/" not in base["error"].split("/pams/")[-1]
+            if good:
+                lines.append({"a": good[0]["digests"], "b": [-1], "smut": False})
+                meta.append({"config": name, "seed": sd, "against": "fresh-process-again-raised", "n": good[0]["n"], "error": base["error"][-300:]})
+            elif in_pams:
+                lines.append({"a": [-2], "b": [-1], "smut": False})
+                meta.append({"config": name, "seed": sd, "against": "valid-configuration-raises-in-every-process", "n": 0, "error": base["error"][-300:]})
+            else:
+                errors.append((name, base["error"]))
             continue
         for mode, r in res:
             if "error" in r:
